@@ -13,6 +13,7 @@ Directive summary (lines starting with //@):
       //@ret NAME                     R10: name the return value  `-> T` => `-> (NAME: T)`
       //@spec                         following lines go between signature and body
       //@loop K                       following lines go before the body brace of the K-th loop
+      //@loophead K KIND => "HDR" body "STMTS"   (next line: the expected current header) declared rewrite of a loop header
       //@afterloop K                  following lines go after the K-th loop statement
       //@inloop K                     following lines go at the start of the K-th loop's body
       //@entry                        following lines go at the start of the body
@@ -362,6 +363,32 @@ class Extractor:
                 if ob < 0:
                     raise LostAnchor('%s: loop %d has no body' % (qual, k))
                 edits.append(Edit(ob, ob, d['lines'], 'splice'))
+            elif head.startswith('loophead '):
+                # //@loophead K KIND => "new header" body "statements"   (declared R7-style rewrite of an
+                # iterator-style loop header into an index loop over the same elements)
+                m = re.match(r'loophead\s+(\d+)\s+(\w+)\s*=>\s*(.*)$', head)
+                k, kind = int(m.group(1)), m.group(2)
+                if kind not in SUBST_KINDS:
+                    raise SpecError('%s:%d: unknown rewrite kind %s' % (wf, wno, kind))
+                newhead, rest = parse_quoted(m.group(3))
+                rest = rest.strip()
+                body_stmts = ''
+                if rest.startswith('body'):
+                    body_stmts, _ = parse_quoted(rest[4:])
+                if k < 1 or k > len(loop_offsets):
+                    raise LostAnchor('%s: loop %d not found (%d loops)' % (qual, k, len(loop_offsets)))
+                lo = loop_offsets[k - 1]
+                ob = next_open_brace(item, mask, lo + 1, body_close)
+                oldhead = item[lo:ob].strip()
+                expected = d['lines'][0][0].strip() if d['lines'] else None
+                if expected is not None and ' '.join(expected.split()) != ' '.join(oldhead.split()):
+                    raise LostAnchor('%s: loop %d header is %r, expected %r' % (qual, k, oldhead, expected))
+                edits.append(Edit(lo, ob, newhead + ' ', kind))
+                if body_stmts:
+                    e2 = Edit(ob + 1, ob + 1, [(' ' + body_stmts, '<%s>' % kind, 0)], 'splice')
+                    e2.prio = -1
+                    edits.append(e2)
+                self.substs.append({'fn': qual, 'kind': kind, 'from': oldhead, 'to': newhead + ' { ' + body_stmts, 'count': 1})
             elif head.startswith('afterloop '):
                 k = int(head.split()[1])
                 if k < 1 or k > len(loop_offsets):
@@ -411,7 +438,7 @@ class Extractor:
                 for mm in find_code(item, mask, pat, body_open, body_close):
                     idx, patv, seq, rev = mm.group(1), mm.group(2), mm.group(3), mm.group(4)
                     if rev:
-                        raise SpecError('R7 .rev() form must be given by //@subst R7')
+                        continue   # the .rev() form must be given by a declared //@subst R7
                     edits.append(Edit(mm.start(), mm.end(), 'for %s in 0..%s.len() ' % (idx, seq), 'R7'))
                     e2 = Edit(mm.end() + 1, mm.end() + 1, [(' let %s = &%s[%s];' % (patv, seq, idx), '<R7>', 0)], 'splice')
                     e2.prio = -1
